@@ -39,6 +39,21 @@ theorem configStage_ok (D : Derive) (sorted : Sorted) (fm : FeatureMap) (errs : 
       exact ⟨this.1, by rw [← h], by rw [← h]⟩
     · cases h
 
+/-- an accepted configuration stage ended in a successful `resolve` on the shape of this enum -/
+theorem configStage_resolved (D : Derive) (sorted : Sorted) (fm : FeatureMap) (errs : List Err) (x : Expansion)
+    (h : configStage D sorted fm errs = .ok x) :
+    ∃ fl m, resolve { gapless := D.gapless, numValues := D.numValues, sizeGuess := D.sizeGuess } fl m = .ok (x.flags, x.modes) := by
+  unfold configStage at h
+  simp only at h
+  generalize hpf : parseFeatures Generated.catalog {} fm errs = pf at h
+  split at h
+  · cases h
+  · rename_i fl m hres
+    split at h
+    · simp only [Except.ok.injEq] at h
+      exact ⟨pf.1.flags, pf.1.modes, by rw [hres, ← h]⟩
+    · cases h
+
 /-- anatomy of an accepted derive -/
 theorem expand_ok (t : Target) (d : Decl) (x : Expansion) (h : expand t d = .ok x) :
     ∃ a rname repr sg ub pv,
@@ -192,5 +207,29 @@ theorem clean_len : ∀ (vs : List Variant) (nxt : Int) (l : List (Int × Name))
       | some dd =>
         rw [hv] at h; simp only [Option.map_eq_some_iff] at h
         obtain ⟨l', hl', rfl⟩ := h; simp [ih _ _ hl']
+
+/-- an accepted derive ended in a successful `resolve` on the shape of the enum it computed -/
+theorem expand_resolved (t : Target) (d : Decl) (x : Expansion) (h : expand t d = .ok x) :
+    ∃ fl m, resolve { gapless := x.D.gapless, numValues := x.D.numValues, sizeGuess := x.D.sizeGuess } fl m = .ok (x.flags, x.modes) := by
+  unfold expand expandWith at h
+  split at h
+  · cases h
+  · split at h
+    · cases h
+    · split at h
+      · cases h
+      · simp only at h
+        split at h
+        · cases h
+        · split at h
+          · cases h
+          · split at h
+            · cases h
+            · split at h
+              · cases h
+              · obtain ⟨_, hD, _⟩ := configStage_ok _ _ _ _ _ h
+                have := configStage_resolved _ _ _ _ _ h
+                rw [hD]
+                exact this
 
 end ET
